@@ -16,6 +16,11 @@
 //! verbatim; Geodesy text that merely mentions "proj" keeps its meaning; `init=` and nested
 //! pipelines are refused.
 //!
+//! Statefulness: sequences of near-duplicate PROJ definitions (same words, different line
+//! breaks around a '#' comment = different operations) go through ONE long-lived Plain
+//! context; each must behave like its counterpart in a fresh context, and earlier handles are
+//! re-checked at the end (section `context-sequences`).
+//!
 //! Known defect classes are excluded by construction in the main section while they are
 //! listed as `known` (read from known_findings.json / known_findings.d/C17.json) and
 //! counted; a smaller unfiltered section keeps generating them and attributes a failure to
@@ -497,18 +502,22 @@ fn would_hang(def: &str) -> bool {
     degenerate(def) || matches!(guard(|| parse_proj(def)), Ok(Ok(t)) if degenerate(&t))
 }
 
-fn observe<C: Context>(ctx: &mut C, text: &str, probes: &[Coor4D]) -> Result<Inst, Failure> {
+/// Ok(Err(text of the error)) = refused
+fn instantiate<C: Context>(ctx: &mut C, text: &str) -> Result<Result<OpHandle, String>, Failure> {
     if would_hang(text) {
-        return Ok(Inst::Refused("degenerate definition: a step made of modifiers only (instantiation would not return)".into()));
+        return Ok(Err("degenerate definition: a step made of modifiers only (instantiation would not return)".into()));
     }
-    let op = match try_op(ctx, text) {
+    match try_op(ctx, text) {
         Err(p) => vfail!(format!("panic-instantiate@{}", p.sig()), "instantiating {text:?} panics: {} at {}:{}", p.msg, p.file, p.line),
-        Ok(Err(e)) => return Ok(Inst::Refused(format!("{e:?}"))),
-        Ok(Ok(op)) => op,
-    };
+        Ok(Err(e)) => Ok(Err(format!("{e:?}"))),
+        Ok(Ok(op)) => Ok(Ok(op)),
+    }
+}
+
+fn behave<C: Context>(ctx: &C, op: OpHandle, text: &str, probes: &[Coor4D]) -> Result<Beh, Failure> {
     let steps = match ctx.steps(op) {
         Ok(s) => s.len(),
-        Err(e) => vfail!("steps-error", "ctx.steps() on a fresh handle for {text:?} fails: {e:?}"),
+        Err(e) => vfail!("steps-error", "ctx.steps() on the handle of {text:?} fails: {e:?}"),
     };
     let mut res: Vec<(usize, Vec<Coor4D>)> = vec![];
     for fwd in [true, false] {
@@ -523,7 +532,14 @@ fn observe<C: Context>(ctx: &mut C, text: &str, probes: &[Coor4D]) -> Result<Ins
     }
     let (inv_n, inv) = res.pop().unwrap();
     let (fwd_n, fwd) = res.pop().unwrap();
-    Ok(Inst::Works(Beh { steps, fwd_n, fwd, inv_n, inv }))
+    Ok(Beh { steps, fwd_n, fwd, inv_n, inv })
+}
+
+fn observe<C: Context>(ctx: &mut C, text: &str, probes: &[Coor4D]) -> Result<Inst, Failure> {
+    Ok(match instantiate(ctx, text)? {
+        Err(e) => Inst::Refused(e),
+        Ok(op) => Inst::Works(behave(ctx, op, text, probes)?),
+    })
 }
 
 fn diff_dir(what: &str, an: usize, a: &[Coor4D], bn: usize, b: &[Coor4D], probes: &[Coor4D]) -> Option<String> {
@@ -1596,6 +1612,335 @@ fn check_mention(c: &MentionCase, rec: &mut Rec) -> CaseResult {
     Ok(())
 }
 
+// ---- one long-lived context, a sequence of near-duplicate definitions ---------------------------
+//
+// A family = one token list (PROJ pipeline AST + '+' placement + one '#' comment in front of
+// the optional tail of a clause). Its variants consist of exactly the same words in the same
+// order and differ only in whitespace: where the line break that ends the comment falls, hence
+// how many of the words following the comment are commented out (tail parameters of the clause,
+// then whole following steps). Every variant is a different, well-formed PROJ definition with
+// its own hand-written counterpart. All of them go through ONE Plain context; each must behave
+// as its counterpart does in a FRESH context, whatever was instantiated before, and the earlier
+// handles must still behave the same at the end.
+
+#[derive(Clone, Debug, Serialize, Deserialize)]
+struct Family {
+    pipe: Pipe,
+    plus: u8,
+    pseed: u64,
+    group: u16,
+    comment: Vec<String>, // empty = no comment: the variants differ in layout only
+}
+
+#[derive(Clone, Debug, Serialize, Deserialize)]
+struct Variant {
+    a: u16,  // how many tail tokens are dead
+    b: u16,  // how many following steps are dead (only if the whole tail is)
+    ws: u64, // whitespace choices
+}
+
+#[derive(Clone, Debug, Serialize, Deserialize)]
+struct SeqCase {
+    fams: Vec<Family>,
+    items: Vec<(u16, Variant)>,
+    probes: Vec<P4>,
+}
+
+#[derive(Clone, Debug, PartialEq)]
+enum Tail {
+    Global(String),
+    Ell,
+    K,
+    Inv,
+    OmitFwd,
+    OmitInv,
+}
+
+/// (tokens of clause `g` that stay in front of the comment, its removable tail)
+fn clause_parts(pipe: &Pipe, g: usize) -> (Vec<String>, Vec<(Tail, String)>) {
+    let mut head = vec![];
+    let mut tail = vec![];
+    if pipe.header && g == 0 {
+        head.push("proj=pipeline".to_string());
+        for gl in &pipe.globals {
+            tail.push((Tail::Global(gl.0.clone()), param_token(gl)));
+        }
+        match &pipe.g_ell {
+            Ell::No => {}
+            Ell::Named(n) => tail.push((Tail::Ell, format!("ellps={n}"))),
+            e => head.extend(ell_tokens(e)),
+        }
+        if let Some(t) = k_tokens(&pipe.g_k).pop() {
+            tail.push((Tail::K, t));
+        }
+        if pipe.inv {
+            tail.push((Tail::Inv, "inv".into()));
+        }
+    } else {
+        let st = &pipe.steps[g - pipe.header as usize];
+        head.push(format!("proj={}", st.name));
+        head.extend(st.params.iter().map(param_token));
+        match &st.ell {
+            Ell::No => {}
+            Ell::Named(n) => tail.push((Tail::Ell, format!("ellps={n}"))),
+            e => head.extend(ell_tokens(e)),
+        }
+        if let Some(t) = k_tokens(&st.k).pop() {
+            tail.push((Tail::K, t));
+        }
+        if st.inv {
+            tail.push((Tail::Inv, "inv".into()));
+        }
+        if st.omit_fwd {
+            tail.push((Tail::OmitFwd, "omit_fwd".into()));
+        }
+        if st.omit_inv {
+            tail.push((Tail::OmitInv, "omit_inv".into()));
+        }
+    }
+    (head, tail)
+}
+
+/// The text of one variant and the pipeline it denotes (dead words removed from the AST)
+fn render_variant(f: &Family, var: &Variant) -> (String, Pipe) {
+    let pipe = &f.pipe;
+    let gs = groups(pipe);
+    let ng = gs.len();
+    let g = pick(f.group, ng);
+    let is_step = |gi: usize| !(pipe.header && gi == 0);
+    let (head, tail) = clause_parts(pipe, g);
+    let has_comment = !f.comment.is_empty();
+    // what is dead
+    let (d_tail, d_steps) = if has_comment {
+        let d_tail = pick(var.a, tail.len() + 1);
+        let following = ng - 1 - g;
+        let max_steps = if is_step(g) { following } else { following.saturating_sub(1) };
+        let d_steps = if d_tail == tail.len() { pick(var.b, max_steps + 1) } else { 0 };
+        (d_tail, d_steps)
+    } else {
+        (0, 0)
+    };
+    // words in text order: (word, region) with region 0 = before the comment, 1 = dead, 2 = live rest
+    let mut words: Vec<(String, u8)> = vec![];
+    let push_group = |words: &mut Vec<(String, u8)>, gi: usize, toks: &[String], region: u8| {
+        if is_step(gi) && !(gi == 0 && !pipe.header) {
+            words.push(("step".into(), region));
+        }
+        for t in toks {
+            words.push((t.clone(), region));
+        }
+    };
+    for gi in 0..g {
+        push_group(&mut words, gi, &gs[gi], 0);
+    }
+    push_group(&mut words, g, &head, 0);
+    for (k, (_, t)) in tail.iter().enumerate() {
+        words.push((t.clone(), if k < d_tail { 1 } else { 2 }));
+    }
+    for gi in g + 1..ng {
+        push_group(&mut words, gi, &gs[gi], if gi - g - 1 < d_steps { 1 } else { 2 });
+    }
+    // the text
+    let mut st = Stream(var.ws ^ 0x5E9);
+    let mut fam = Stream(f.pseed ^ 0xFA);
+    let glued = fam.chance(1, 4);
+    let mut out = String::new();
+    let mut comment_open = false; // we are on the comment's line
+    let mut comment_done = !has_comment;
+    for (i, (w, region)) in words.iter().enumerate() {
+        let plus = match f.plus {
+            0 => false,
+            1 => true,
+            _ => fam.chance(1, 2),
+        };
+        if !comment_done && *region != 0 {
+            // the comment goes here: in front of the first word that is not in region 0
+            out.push_str(if glued { "#" } else { [" #", "  #", "\t #"][st.below(3)] });
+            for c in &f.comment {
+                out.push_str([" ", "  ", " \t "][st.below(3)]);
+                out.push_str(c);
+            }
+            comment_open = true;
+            comment_done = true;
+        }
+        if comment_open && *region == 2 {
+            out.push_str(["\n ", "\r\n   ", " \n  ", "\r "][st.below(4)]);
+            comment_open = false;
+        } else if i > 0 {
+            if comment_open {
+                out.push_str([" ", "  ", "\t ", " \t "][st.below(4)]);
+            } else {
+                out.push_str([" ", " ", "  ", "\t ", "\n ", "\r\n    ", "\n\n  ", " \t "][st.below(8)]);
+            }
+        }
+        if plus {
+            out.push('+');
+        }
+        out.push_str(w);
+    }
+    if !comment_done {
+        // nothing follows the clause: a trailing comment
+        out.push_str(if glued { "#" } else { " #" });
+        for c in &f.comment {
+            out.push(' ');
+            out.push_str(c);
+        }
+    }
+    if st.chance(1, 4) {
+        out.push_str(["\n", " ", "\r\n"][st.below(3)]);
+    }
+    // the pipeline that is left
+    let mut eff = pipe.clone();
+    for (t, _) in tail.iter().take(d_tail) {
+        if pipe.header && g == 0 {
+            match t {
+                Tail::Global(k) => eff.globals.retain(|gl| &gl.0 != k),
+                Tail::Ell => eff.g_ell = Ell::No,
+                Tail::K => eff.g_k = KSpec::No,
+                Tail::Inv => eff.inv = false,
+                _ => {}
+            }
+        } else {
+            let sx = &mut eff.steps[g - pipe.header as usize];
+            match t {
+                Tail::Ell => sx.ell = Ell::No,
+                Tail::K => sx.k = KSpec::No,
+                Tail::Inv => sx.inv = false,
+                Tail::OmitFwd => sx.omit_fwd = false,
+                Tail::OmitInv => sx.omit_inv = false,
+                Tail::Global(_) => {}
+            }
+        }
+    }
+    let first_dead_step = g + 1 - pipe.header as usize;
+    eff.steps.drain(first_dead_step..first_dead_step + d_steps);
+    (out, eff)
+}
+
+fn collapse(s: &str) -> String {
+    s.split_whitespace().collect::<Vec<_>>().join(" ")
+}
+
+const K_CTX: &str = "context-history-changes-proj-translation";
+
+fn check_seq(c: &SeqCase, rec: &mut Rec) -> CaseResult {
+    let probes = c4s(&c.probes);
+    let mut long = Plain::new();
+    let mut long_min = Minimal::new();
+    // (text, reference text, handle in the long-lived context, reference outcome, family)
+    let mut history: Vec<(String, String, Option<OpHandle>, Inst, usize)> = vec![];
+    let told = |history: &[(String, String, Option<OpHandle>, Inst, usize)]| -> String {
+        history.iter().enumerate().map(|(i, h)| format!("  #{i}: {}  (counterpart {})", esc(&h.0), esc(&h.1))).collect::<Vec<_>>().join("\n")
+    };
+    for (fi, var) in &c.items {
+        let fx = pick(*fi, c.fams.len());
+        let f = &c.fams[fx];
+        let (text, eff) = render_variant(f, var);
+        let reft = translate(&eff, Bugs::default());
+        // the counterpart in a fresh context
+        let mut fresh = Plain::new();
+        let rf = observe(&mut fresh, &reft, &probes)?;
+        // the PROJ text in the long-lived context
+        let (handle, lib) = match instantiate(&mut long, &text)? {
+            Err(e) => (None, Inst::Refused(e)),
+            Ok(h) => (Some(h), Inst::Works(behave(&long, h, &text, &probes)?)),
+        };
+        if let Some(d) = differs(&lib, &rf, &probes) {
+            // is it the history, or the text itself?
+            let mut alone = Plain::new();
+            let solo = observe(&mut alone, &text, &probes)?;
+            let key = if differs(&solo, &rf, &probes).is_none() { K_CTX } else { "translation-changes-meaning" };
+            vfail!(
+                key,
+                "PROJ text      : {}\nparse_proj     : {:?}\ncounterpart    : {}\nin a Plain context that has instantiated {} definition(s) before: {d}\nin a fresh Plain context the same text {}\nearlier in this context:\n{}",
+                esc(&text),
+                guard(|| parse_proj(&text)).map_err(|p| p.msg),
+                esc(&reft),
+                history.len(),
+                if key == K_CTX { "behaves as its counterpart" } else { "differs from its counterpart as well" },
+                told(&history)
+            );
+        }
+        // the Geodesy side through a long-lived Minimal context
+        let m = observe(&mut long_min, &reft, &probes)?;
+        if let Some(d) = differs(&m, &rf, &probes) {
+            vfail!("minimal-context-history-changes-definition", "Geodesy text {} in a Minimal context with {} earlier definitions vs a fresh Plain context: {d}", esc(&reft), history.len());
+        }
+        history.push((text, reft, handle, rf, fx));
+    }
+    // earlier handles must still be what they were
+    for (i, (text, reft, handle, rf, _)) in history.iter().enumerate() {
+        if let (Some(h), Inst::Works(_)) = (handle, rf) {
+            let again = Inst::Works(behave(&long, *h, text, &probes)?);
+            if let Some(d) = differs(&again, rf, &probes) {
+                vfail!("earlier-handle-changed", "handle #{i} of {} (counterpart {}) no longer behaves as it did, after {} more definitions: {d}\n{}", esc(text), esc(reft), history.len() - 1 - i, told(&history));
+            }
+        }
+    }
+    // bookkeeping: near-duplicates = same words, different operation
+    let mut dup_differ = false;
+    let mut dup_same = false;
+    for i in 0..history.len() {
+        for j in 0..i {
+            if history[i].4 == history[j].4 && collapse(&history[i].0) == collapse(&history[j].0) && history[i].0 != history[j].0 {
+                if history[i].1 != history[j].1 {
+                    dup_differ = true;
+                } else {
+                    dup_same = true;
+                }
+            }
+        }
+    }
+    rec.class(&format!("items={}", history.len()));
+    rec.count("definitions", history.len() as u64);
+    if dup_differ {
+        rec.class("same-words-different-operation");
+    }
+    if dup_same {
+        rec.class("same-words-same-operation");
+    }
+    if c.fams.iter().any(|f| f.comment.is_empty()) {
+        rec.class("family-without-comment");
+    }
+    if history.iter().any(|h| matches!(h.3, Inst::Refused(_))) {
+        rec.class("some-refused");
+    }
+    let distinct_effects = {
+        let mut v: Vec<&Inst> = vec![];
+        for h in &history {
+            if !v.iter().any(|x| differs(x, &h.3, &probes).is_none()) {
+                v.push(&h.3);
+            }
+        }
+        v.len()
+    };
+    if dup_differ && distinct_effects >= 2 {
+        rec.nontrivial(&history.iter().map(|h| h.0.clone()).collect::<Vec<_>>());
+    }
+    Ok(())
+}
+
+fn seq_strategy() -> impl Strategy<Value = SeqCase> {
+    let words = ["uses", "the", "ED50", "flavour", "back", "to", "geographical:", "step", "proj=noop", "+inv", "ellps=bessel", "note", "k=3", "##"];
+    let family = (raw_pipe(4), 0u8..3, any::<u64>(), any::<u16>(), prop::collection::vec(0usize..words.len(), 0..=3), prop::bool::weighted(0.9)).prop_map(
+        move |(rp, plus, pseed, group, cw, commented)| {
+            // no push/pop brackets here: removing a step must not unbalance the stack
+            let no_brackets = Excl { pushpop: true, ..Default::default() };
+            let (pipe, _, _) = build_pipe(&rp, &no_brackets);
+            let mut comment: Vec<String> = cw.iter().map(|i| words[*i].to_string()).collect();
+            if commented && comment.is_empty() {
+                comment.push("uses".into());
+            }
+            if !commented {
+                comment.clear();
+            }
+            Family { pipe, plus, pseed, group, comment }
+        },
+    );
+    let variant = (any::<u16>(), any::<u16>(), any::<u64>()).prop_map(|(a, b, ws)| Variant { a, b, ws });
+    (prop::collection::vec(family, 1..=3), prop::collection::vec((any::<u16>(), variant), 2..=8), probes_strategy()).prop_map(|(fams, items, probes)| SeqCase { fams, items, probes })
+}
+
 // ---- main --------------------------------------------------------------------------------------
 
 fn known_keys(root: &std::path::Path) -> BTreeSet<String> {
@@ -1682,6 +2027,15 @@ fn main() {
         n,
         move || mention_strategy(excl),
         check_mention,
+    );
+
+    let n = run.scale(2_500, 60_000);
+    run.section(
+        "context-sequences",
+        "sequences of 2..8 PROJ definitions from 1..3 families through ONE Plain context; the variants of a family are the same words in the same order and differ only in whitespace, i.e. in where the line break ending a '#' comment falls and hence which tail parameters / following steps are commented out; each is compared (bitwise behaviour, counts, ctx.steps()) with its hand-written counterpart in a FRESH context, the counterparts also go through one long-lived Minimal context, and all earlier handles are re-checked at the end; non-trivial = holds two texts of equal words denoting different operations",
+        n,
+        seq_strategy,
+        check_seq,
     );
 
     run.finish("generated PROJ pipeline ASTs x layouts checked against an independent translator (bitwise behaviour of Plain::op(PROJ) vs Plain::op(reference), inverted twins, idempotence), plus refusal and pass-through domains; see sections");
